@@ -113,6 +113,18 @@ func init() {
 		}
 		return SV{V: TV{e.x.w.SortOf(t), e.x.wireDecode(e.st, "le", t, e.term(args[0]))}, T: t}
 	}
+	// wfguid(g): the representation invariant of an EFIGUID value as an SMT fact - Data4 holds eight bytes.
+	// (The Go type guarantees it; a value read out of a sequence or a heap cell carries no such fact
+	// in the logic, so lemma functions over such values ask for it.)
+	specFuncs["wfguid"] = func(e *specEnv, args []SV) SV {
+		g := e.term(args[0])
+		d := e.x.w.DTByName(e.sortOf(args[0]))
+		if d == nil || d.FieldIndex("Data4") < 0 {
+			return e.fail("wfguid needs an EFIGUID value")
+		}
+		d4 := d.Get(d.FieldIndex("Data4"), g)
+		return SV{V: TV{SBool, tAnd(tEq(sLen(SSeqI, d4), "8"), app("g_isbytes", d4))}}
+	}
 	specFuncs["encSig"] = func(e *specEnv, args []SV) SV {
 		return SV{V: TV{SSeqI, app("g_encSig", e.term(args[0]))}, T: byteSlice}
 	}
@@ -173,6 +185,14 @@ func init() {
 	specFuncs["pemdecode"] = func(e *specEnv, args []SV) SV {
 		e.x.w.Decl("(declare-fun g_pemdecode (" + SSeqI + ") " + SSeqI + ")")
 		return SV{V: TV{SSeqI, app("g_pemdecode", e.term(args[0]))}, T: types.NewSlice(types.Typ[types.Uint8])}
+	}
+	specFuncs["unhex"] = func(e *specEnv, args []SV) SV { // what hex.DecodeString returns for a string (assumed function)
+		e.x.w.Decl("(declare-fun g_unhex (" + SSeqI + ") " + SSeqI + ")")
+		return SV{V: TV{SSeqI, app("g_unhex", e.term(args[0]))}, T: byteSlice}
+	}
+	specFuncs["replaceall"] = func(e *specEnv, args []SV) SV { // strings.ReplaceAll (assumed function)
+		e.x.w.Decl("(declare-fun g_replaceall (" + SSeqI + " " + SSeqI + " " + SSeqI + ") " + SSeqI + ")")
+		return SV{V: TV{SSeqI, app("g_replaceall", e.term(args[0]), e.term(args[1]), e.term(args[2]))}, T: byteSlice}
 	}
 	specFuncs["isbytes"] = func(e *specEnv, args []SV) SV {
 		return SV{V: TV{SBool, app("g_isbytes", e.term(args[0]))}}
